@@ -146,7 +146,11 @@ def run(ctx, report):
                         for label, raw, want in (("min", s.min, bmin), ("max", s.max, bmax)):
                             if raw is None:
                                 continue
-                            got = decode_raw(raw, col.meta_data.type, kind)
+                            try:
+                                got = decode_raw(raw, col.meta_data.type, kind)
+                            except Exception as e:  # noqa
+                                probs.append(f"{label} is not a PLAIN-encoded value of the column's type ({type(raw).__name__}: {str(e)[:60]})")
+                                continue
                             if want is None:
                                 probs.append(f"{label} present ({got!r}) although the chunk has no non-null value")
                             elif isinstance(want, float) or isinstance(got, float):
@@ -154,7 +158,7 @@ def run(ctx, report):
                                     probs.append(f"{label} = {got!r} but the {'smallest' if label == 'min' else 'largest'} stored value is {want!r}")
                             elif got != want:
                                 probs.append(f"{label} = {got!r} but the {'smallest' if label == 'min' else 'largest'} stored value is {want!r}")
-                        if s.min is not None and s.max is not None and simple:
+                        if s.min is not None and s.max is not None and simple and not any("not a PLAIN-encoded" in p for p in probs):
                             a, b = decode_raw(s.min, col.meta_data.type, kind), decode_raw(s.max, col.meta_data.type, kind)
                             try:
                                 if a > b:
